@@ -2,7 +2,7 @@ SPEC = dict(
     props_file="Props/C13.v",
     level="proof",
     observers=[dict(cmd="obs_resp", imports=["Model.Resp"], case_type="Resp.case", check="Resp.check_case",
-                    n={"quick": 1200, "thorough": 40000}, shard=80, env={"VERIF_RESP_MIX": "malformed"})],
+                    n={"quick": 1200, "thorough": 40000}, shard=40, env={"VERIF_RESP_MIX": "malformed"})],
     rule="malformed stream: mutations of valid encodings (length fields replaced by -2, -1, -2^63, 2^63-1, 10^18, 99999999999, 2^62, 2^62+1, "
          "2^64-1, 2^63, 65537, 2^31, values just above the remaining input, '?', empty; swapped type bytes; deleted / inserted bytes; truncation) "
          "and raw bytes over the RESP alphabet, through the real readNextMessage under recover() with bufio sizes {32,64,4096} and three ways of "
